@@ -61,29 +61,31 @@ def is_valid(b):
         return False
 
 
-def check_decode(ctx, c, out):
+def check_decode(ctx, c, out, rep=None, note=""):
+    """rep: the case line to put in the replay when the decoder was reached through another kind (wave 4)"""
+    rc = [rep or c]
     kind, h = c.split("\t")[:2]
     d = unhex(h)
-    name = "Windows1252Encoding" if kind == "enc.w1252" else "Utf8Encoding"
+    name = ("Windows1252Encoding" if kind == "enc.w1252" else "Utf8Encoding") + note
     if out in ("PANIC", "ABORT", "HANG") or out[:2] not in ("B:", "O:"):
-        ctx.fail("decode-panic", "%s::decode(%r) -> %s" % (name, d, out), [c], [out], "a string")
+        ctx.fail("decode-panic", "%s::decode(%r) -> %s" % (name, d, out) + note, rc, [out], "a string")
         return
     borrowed = out[0] == "B"
     got = unhex(out[2:])
     t = trim(d)
     exp = ref_w1252(d) if kind == "enc.w1252" else ref_utf8(d)
     if not is_valid(got):
-        ctx.fail("invalid-utf8", "%s::decode(%r) is not valid UTF-8: %s" % (name, d, got.hex()), [c], [out], "valid UTF-8")
+        ctx.fail("invalid-utf8", "%s::decode(%r) is not valid UTF-8: %s" % (name, d, got.hex()), rc, [out], "valid UTF-8")
     if got != exp:
         ctx.fail("reference", "%s::decode(%r) = %r, reference mapping (trim, unescape, %s) = %r" % (
-            name, d, got, "code page" if kind == "enc.w1252" else "lossy", exp), [c], [out], ("O:" if not borrowed else "B:") + hexs(exp))
+            name, d, got, "code page" if kind == "enc.w1252" else "lossy", exp), rc, [out], ("O:" if not borrowed else "B:") + hexs(exp))
     plain = all(x < 128 and x != 0x5c for x in t)
     if plain and not borrowed:
-        ctx.fail("not-borrowed", "%s::decode(%r): escape-free ASCII input was not returned borrowed" % (name, d), [c], [out], "B:" + hexs(t))
+        ctx.fail("not-borrowed", "%s::decode(%r): escape-free ASCII input was not returned borrowed" % (name, d), rc, [out], "B:" + hexs(t))
     if borrowed and got != t:
-        ctx.fail("borrowed-differs", "%s::decode(%r) is borrowed but is not the trimmed input" % (name, d), [c], [out], "B:" + hexs(t))
+        ctx.fail("borrowed-differs", "%s::decode(%r) is borrowed but is not the trimmed input" % (name, d), rc, [out], "B:" + hexs(t))
     if borrowed and kind == "enc.w1252" and not plain:
-        ctx.fail("borrowed-nonascii", "%s::decode(%r) borrowed a non-ASCII / escaped input" % (name, d), [c], [out], "O:" + hexs(exp))
+        ctx.fail("borrowed-nonascii", "%s::decode(%r) borrowed a non-ASCII / escaped input" % (name, d), rc, [out], "O:" + hexs(exp))
 
 
 def run_decoders(ctx, stream, strs, both=True):
